@@ -27,7 +27,12 @@ impl UndoRegisterCallee {
     }
 
     /// Don't undo the registration when dropped.
-    pub fn defuse(mut self) { self.defused = true; }
+    pub fn defuse(mut self) {
+        self.defused = true;
+
+        // this request is over; the registration stays
+        self.query_computing.finish_callee(&self.callee_target);
+    }
 }
 
 impl Drop for UndoRegisterCallee {
